@@ -422,6 +422,8 @@ theorem taskThrow_inv {s : State} (hi : Inv s) (t : TaskId) (cd : Bool) :
   · rename_i hnd
     have hnd : (s.tasks t).done = false := by simpa using hnd
     split
+    · exact hi0
+    split
     · -- blocked on f
       rename_i f hbo
       have hfw := blockedOn_some hbo
@@ -536,6 +538,9 @@ theorem step_inv {s : State} (hi : Inv s) (e : Event) : Inv (step s e).1 := by
   | setExc f => simp only [step]; split; exact completeFut_inv hi _ _ (by decide); exact hi
   | cancelFut f => simp only [step]; split; exact completeFut_inv hi _ _ (by decide); exact hi
   | addCb f k => exact addCb_inv hi f k
+  | setNoCancel f b =>
+    use_inv hi
+    constructor <;> simp only [step, setFut, H, W, isBlocked] at * <;> grind
   | cancelTask t => simp only [step]; split; exact hi; exact cancelTask_inv hi t
   | callSoonOther t => apply inv_congr hi <;> simp [step, callSoon, H, isOf, taskFromHandle]
   | callSoonCb k => apply inv_congr hi <;> simp [step, callSoon, H, isOf, taskFromHandle]
